@@ -217,6 +217,10 @@ def call_entry(m, spec, call, grid):
     from pygom.model import ode_utils
     ent, meth, full, origin = call["entry"], call.get("method"), call.get("full", False), call.get("origin", True)
     t = grid[0] if call.get("scalar_t") else (list(grid) if call.get("t_list") else np.array(grid, dtype=float))
+    if call.get("int_t") == "list":        # integer-typed grids: the prepended t0 must not be cast to int
+        t = [int(v) for v in grid]
+    elif call.get("int_t") == "array":
+        t = np.array([int(v) for v in grid], dtype=int)
     out = dict(rows=None, err=None, maxev=None, minev=None)
     try:
         with pg.quiet(), warnings.catch_warnings():
@@ -344,6 +348,9 @@ def gen_grid(rng, spec, kind):
     n = int(rng.integers(2, 9))
     if kind == "uniform":
         g = np.linspace(t0, t0 + T, n + 1)[1:]
+    elif kind == "integer":
+        k0 = int(np.floor(t0)) + 1
+        g = np.array([float(k0 + k) for k in range(0, max(2, min(n, int(np.ceil(T)))))])
     elif kind == "single":
         g = np.array([t0 + T * float(rng.uniform(0.3, 1.0))])
     else:
@@ -457,12 +464,16 @@ def run(ck):
             stats["rate_kinds"][k] = stats["rate_kinds"].get(k, 0) + 1
         m = build(spec)
         kinds = ["uniform", "nonuniform"] + (["single"] if (not ck.quick or rng.random() < 0.34) else [])
+        if spec["t0"] != int(spec["t0"]) or rng.random() < 0.25:
+            kinds.append("integer")
         for gk in kinds:
             grid = gen_grid(rng, spec, gk)
             stats["grids"][gk] = stats["grids"].get(gk, 0) + 1
             cs = list(calls)
             if gk == "nonuniform":  # ... and a plain Python list
                 cs = [dict(c, t_list=True) for c in calls]
+            if gk == "integer":     # Python ints in a list / an int-typed ndarray
+                cs = [dict(c, int_t=("list" if i % 2 else "array")) for i, c in enumerate(calls)]
             if gk == "single":      # the API also takes a bare number for t
                 cs = cs + [dict(c, scalar_t=True) for c in calls if c.get("method") in (None, "dopri5")]
             for call, cls, what in sweep(ck, spec, grid, cs, stats, cases, m=m):
